@@ -157,7 +157,10 @@ class FullGen:
             g.n_conv += k
             e_ = ["fn", "INT", [list(self.d(st.sampled_from(leafs)))]]
             for i in range(k - 1):
-                e_ = ["bin", "+", e_, ["fn", self.d(st.sampled_from(["INT", "VAL"])), [["str", str(i)]] if False else [list(self.d(st.sampled_from(leafs)))]]]
+                if self.d(st.booleans()):
+                    e_ = ["bin", "+", e_, ["fn", "INT", [list(self.d(st.sampled_from(leafs)))]]]
+                else:
+                    e_ = ["bin", "+", e_, ["fn", "VAL", [["str", str(i)]]]]
             return ["let", g.num_target(), e_, False]
         if r == 2 and g.strings and g.convertible:
             g.n_conv += k
